@@ -72,6 +72,10 @@ def get_facts(repo='/repo', cfg='A', verbose=False):
         out = os.path.join(CACHE, 'facts', key, cfg)
         marker = os.path.join(out, '.complete')
         if os.path.exists(marker):
+            try:
+                os.utime(os.path.join(CACHE, 'facts', key))
+            except OSError:
+                pass
             return out, {'cached': True, 'key': key}
         failed = os.path.join(out, '.failed')
         if os.path.exists(failed):
